@@ -17,12 +17,14 @@ import (
 	"fmt"
 	"math/rand"
 	"os"
+	"os/exec"
 	"path/filepath"
 	"runtime"
 	"sort"
 	"strconv"
 	"strings"
 	"sync"
+	"sync/atomic"
 	"time"
 
 	"rgverif/internal/cluster"
@@ -45,6 +47,7 @@ var (
 	fOut     = flag.String("out", "", "worker result file")
 	fJournal = flag.String("journal", "", "worker journal file")
 	fSkip    = flag.Int("skip", 0, "number of this batch's inputs to skip (resume after a hang)")
+	fConc    = flag.Bool("conc", false, "run as the concurrent-clients worker")
 )
 
 var sigMu sync.Mutex
@@ -810,10 +813,182 @@ func tailOf(s string, n int) string {
 	return s
 }
 
+// ---- concurrent clients on one keyspace ------------------------------------------------------------------------------
+//
+// None of the commands sampled here blocks by definition, so with several clients sending them at once every one of
+// them still has to return. What a single client can never show: a command that takes a lock twice (harmless until a
+// writer queues up in between), two commands that take two locks in opposite orders, a value left half-written by an
+// interrupted neighbour.
+
+type concOut struct {
+	Clients  int      `json:"clients"`
+	Commands int64    `json:"commands"`
+	Panics   []string `json:"panics,omitempty"`
+	Hang     string   `json:"hang,omitempty"`
+	HangCmds []string `json:"hang_cmds,omitempty"`
+}
+
+func concWorker(o *common.Opts) {
+	inproc.Setup(4, 1, filepath.Join(o.Work, "log"))
+	out := concOut{Clients: 8}
+	// a sample of the sweep's inputs: every command, all arities, the preset keys and two more of each type
+	var sample [][]string
+	n := 0
+	for _, name := range inproc.Commands() {
+		if skip(name) || name == "blpop" || name == "brpop" || name == "subscribe" || name == "publish" || name == "unsubscribe" {
+			continue
+		}
+		enumerate(name, false, func(argv []string) {
+			n++
+			if n%97 != int(o.Seed)%97 {
+				return
+			}
+			argv = sanitize(name, append([]string{}, argv...))
+			for _, a := range argv {
+				if len(a) > 12 { // huge numbers ask for huge outputs or offsets: the sequential sweep covers them
+					return
+				}
+			}
+			sample = append(sample, argv)
+		})
+	}
+	in := newInst()
+	for _, k := range []string{"ks2", "ks3"} {
+		in.Exec(respc.Cmd("SET", k, "v"), nil)
+	}
+	var done int64
+	current := make([]atomic.Value, out.Clients)
+	var pmu sync.Mutex
+	var wg sync.WaitGroup
+	rounds := o.Pick(3, 20)
+	for c := 0; c < out.Clients; c++ {
+		wg.Add(1)
+		go func(c int) {
+			defer wg.Done()
+			r := rand.New(rand.NewSource(o.Seed*131 + int64(c)))
+			for i := 0; i < rounds*len(sample)/out.Clients; i++ {
+				argv := sample[r.Intn(len(sample))]
+				if i%9 == 0 {
+					// keep the preset values alive: the others delete and retype them all the time
+					argv = preset[r.Intn(len(preset))]
+				}
+				current[c].Store(strings.Join(argv, " "))
+				res := in.Exec(respc.Cmd(argv...), nil)
+				if res.Panic != "" {
+					pmu.Lock()
+					if len(out.Panics) < 5 {
+						out.Panics = append(out.Panics, strings.Join(seqrun.QuoteFull(respc.Cmd(argv...)), " ")+": "+res.Panic)
+					}
+					pmu.Unlock()
+				}
+				atomic.AddInt64(&done, 1)
+			}
+			current[c].Store("")
+		}(c)
+	}
+	fin := make(chan struct{})
+	go func() { wg.Wait(); close(fin) }()
+	last, since := int64(-1), time.Now()
+	for finished := false; !finished; {
+		select {
+		case <-fin:
+			finished = true
+		case <-time.After(500 * time.Millisecond):
+			if d := atomic.LoadInt64(&done); d != last {
+				last, since = d, time.Now()
+			} else if time.Since(since) > 25*time.Second {
+				buf := make([]byte, 4<<20)
+				buf = buf[:runtime.Stack(buf, true)]
+				var stuck []string
+				for _, g := range strings.Split(string(buf), "\n\n") {
+					if strings.Contains(g, "inproc.(*Inst).Exec") {
+						stuck = append(stuck, inproc.TopFrames(g, 6))
+					}
+				}
+				for c := range current {
+					if v, _ := current[c].Load().(string); v != "" {
+						out.HangCmds = append(out.HangCmds, v)
+					}
+				}
+				out.Hang = fmt.Sprintf("%d clients sent non-blocking commands at once; after %d commands none of them made progress for 25 s. Goroutines inside an executor:\n%s", out.Clients, last, strings.Join(stuck, "\n--\n"))
+				finished = true
+			}
+		}
+	}
+	out.Commands = atomic.LoadInt64(&done)
+	b, _ := json.Marshal(out)
+	_ = os.WriteFile(*fOut, b, 0o644)
+}
+
+// concVehicle runs concWorker in a child process.
+func concVehicle(o *common.Opts, report func(witness)) (cmds int64, note string) {
+	outFile := filepath.Join(o.Work, "conc.json")
+	logFile := filepath.Join(o.Work, "conc.log")
+	lf, _ := os.Create(logFile)
+	defer lf.Close()
+	cmd := exec.Command(os.Args[0], "-conc", "-seed", fmt.Sprint(o.Seed), "-tier", o.Tier, "-out", outFile, "-work", o.Work)
+	cmd.Stdout, cmd.Stderr = lf, lf
+	cmd.Env = append(os.Environ(), "GOTRACEBACK=all")
+	if err := cmd.Start(); err != nil {
+		return 0, "concurrent vehicle did not start: " + err.Error()
+	}
+	errc := make(chan error, 1)
+	go func() { errc <- cmd.Wait() }()
+	select {
+	case err := <-errc:
+		if err != nil {
+			b, _ := os.ReadFile(logFile)
+			if len(b) > 1<<20 {
+				b = b[len(b)-(1<<20):]
+			}
+			line := "exit: " + err.Error()
+			for _, l := range strings.Split(string(b), "\n") {
+				if strings.HasPrefix(l, "fatal error:") || strings.HasPrefix(l, "panic:") {
+					line = l
+					break
+				}
+			}
+			report(witness{Kind: "crash", Detail: "concurrent clients: the process died: " + line + "\n" + inproc.TopFrames(string(b), 8), Sig: "crash|concurrent|" + seqrun.Generalise(line)})
+			return 0, ""
+		}
+	case <-time.After(time.Duration(o.Pick(240, 1200)) * time.Second):
+		_ = cmd.Process.Kill()
+		<-errc
+		return 0, "concurrent vehicle exceeded its wall-clock limit"
+	}
+	var w concOut
+	b, err := os.ReadFile(outFile)
+	if err != nil || json.Unmarshal(b, &w) != nil {
+		return 0, "concurrent vehicle left no result"
+	}
+	for _, p := range w.Panics {
+		name := strings.ToUpper(strings.Trim(strings.Fields(p)[0], `"`))
+		report(witness{Kind: "panic", Detail: "concurrent clients: " + p, Sig: "panic|concurrent|" + name})
+	}
+	if w.Hang != "" && len(w.Panics) == 0 {
+		var names []string
+		seen := map[string]bool{}
+		for _, c := range w.HangCmds {
+			n := strings.ToUpper(strings.Fields(c + " ?")[0])
+			if !seen[n] {
+				seen[n] = true
+				names = append(names, n)
+			}
+		}
+		sort.Strings(names)
+		report(witness{Kind: "hang", Argv: w.HangCmds, Detail: w.Hang, Sig: "hang|concurrent|" + strings.Join(names, "+")})
+	}
+	return w.Commands, ""
+}
+
 func main() {
 	o := common.Parse(prop)
 	if *fWorker {
 		worker(o)
+		return
+	}
+	if *fConc {
+		concWorker(o)
 		return
 	}
 	defer o.Cleanup()
@@ -929,7 +1104,10 @@ func main() {
 	var tcpSent, tcpServers, clSent, clNodes, mbDone int
 	var tcpNote, clNote, mbNote string
 	var vwg sync.WaitGroup
-	vwg.Add(3)
+	var concCmds int64
+	var concNote string
+	vwg.Add(4)
+	go func() { defer vwg.Done(); concCmds, concNote = concVehicle(o, addWit) }()
 	go func() { defer vwg.Done(); tcpSent, tcpServers, tcpNote = tcpVehicle(o, o.Pick(2000, 60000), addWit) }()
 	go func() { defer vwg.Done(); clSent, clNodes, clNote = clusterVehicle(o, o.Pick(500, 12000), addWit) }()
 	go func() {
@@ -942,6 +1120,9 @@ func main() {
 	}
 	if mbNote != "" {
 		tcpNote += " membership vehicle: " + mbNote
+	}
+	if concNote != "" {
+		tcpNote += " " + concNote
 	}
 	sigs := make([]string, 0, len(bySig))
 	for s := range bySig {
@@ -980,10 +1161,11 @@ func main() {
 				"(full 35-symbol alphabet up to arity 3, command option words + extremes beyond); each input on a fresh preset keyspace under recover, then try-lock sweep of all stripes and probes on the same and another key; " +
 				"distinct = distinct (command, reply kind) pairs observed; TCP: sampled inputs against the real binary with same-connection, same-key, per-stripe and fresh-connection probes; " +
 				"cluster: sampled inputs, malformed membership commands and raw byte strings (empty command, null elements, non-array values) through one-node clusters with same-connection, fresh-connection and commit probes; hostile membership commands (peer address that is not a URL, ids that name nobody or an existing member), each on its own three-node cluster, after which every node must be alive and commit a write",
-			"samples":                             []any{[]string{"SETRANGE", "ks", "9223372036854775807", "a"}, []string{"ZADD", "kz", "ch", "incr", "nan", "m"}, []string{"XADD", "kx", "maxlen"}},
-			"exhaustive":                          inconclusive == "",
-			"inputs_per_command":                  agg.PerCmd,
-			"inputs_meeting_dead_but_stored_keys": agg.DeadState,
+			"samples":            []any{[]string{"SETRANGE", "ks", "9223372036854775807", "a"}, []string{"ZADD", "kz", "ch", "incr", "nan", "m"}, []string{"XADD", "kx", "maxlen"}},
+			"exhaustive":         inconclusive == "",
+			"inputs_per_command": agg.PerCmd,
+			"commands_by_8_concurrent_clients_on_one_keyspace":                  concCmds,
+			"inputs_meeting_dead_but_stored_keys":                               agg.DeadState,
 			"inputs_meeting_keys_with_a_deadline_(ordinary_or_centuries_ahead)": agg.DeadlineState,
 			"commands":               len(agg.PerCmd),
 			"blocking_pop_inputs":    agg.Blocking,
